@@ -34,6 +34,12 @@ from ..structprops import rand_bytes
 SCALARS = ["uint8", "int16", "uint32", "uint64", "char", "wchar", "int24", "unsigned int", "long long", "DWORD", "unsigned short", "float"]
 SEPS_REQ = [" ", "  ", "\n", "\t", " /* c */ ", " /* multi\n line */ ", " // trailing\n", "\n\n", " /**/", "/* a */ /* b */ "]
 SEPS_OPT = ["", "", "/**/", "/* tight */"] + SEPS_REQ
+# name twins: distinct types that carry the same display name.  Tags of nested structures are local to the member that declares them
+# (they are never registered), so unrelated definitions may each declare their own `struct entry {...}`; the built-in int48 / uint48
+# are two types that are both displayed as "int48".
+LOCAL_TAGS = ["entry", "item", "hdr"]
+TWIN_SCALARS = ["int48", "uint48"]
+TWIN_COUNTS = ["2", "4", "2", "4", "", "cnt & 3", "cnt"]
 
 
 class Item:
@@ -43,9 +49,15 @@ class Item:
         self.tokens, self.defines, self.uses, self.line, self.enum = tokens, defines, uses, line, enum
 
 
-def gen_items(rnd, n, prefix="", multi=True):
+def gen_items(rnd, n, prefix="", multi=True, twins=None):
     """prefix: put before every top-level name (type, constant), so that several generated sets can share one instance;
-    multi: allow several names after a struct typedef"""
+    multi: allow several names after a struct typedef;
+    twins: the set is rich in name twins (see LOCAL_TAGS): every struct/union starts with a `uint8 cnt` member and declares
+    locally tagged nested structs/unions (1..3 members, so that equal tags get different bodies in different definitions) as plain,
+    pointer, fixed-array, null-terminated and `[cnt & 3]` members, and int48 / uint48 members with the same array counts
+    (None: decided by rnd)"""
+    if twins is None:
+        twins = rnd.random() < 0.4
     items = []
     types = []      # user type names usable by later items
     consts = []
@@ -82,6 +94,28 @@ def gen_items(rnd, n, prefix="", multi=True):
         toks.append(";")
         return toks, uses
 
+    def twin_decl(fname, dyn=True):
+        """declarator of a member whose type has a name twin: plain, pointer, fixed / null-terminated / member-sized array"""
+        r = rnd.random()
+        if r < 0.2:
+            return [fname]
+        if r < 0.3:
+            return ["*", fname]
+        cnt = rnd.choice(TWIN_COUNTS if dyn else TWIN_COUNTS[:4])
+        return [(fname + "[" + cnt + "]",)]
+
+    def twin_member(i, avail):
+        """-> tokens, uses: a locally tagged nested struct/union member or an int48/uint48 member"""
+        if rnd.random() < 0.3:
+            return [rnd.choice(TWIN_SCALARS)] + twin_decl(f"w{i}") + [";"], set()
+        inner, uses = [], set()
+        for j in range(rnd.randint(1, 3)):
+            ft, fu = field_tokens(f"g{i}_{j}", avail)
+            inner += ft
+            uses |= fu
+        tag = [rnd.choice(LOCAL_TAGS[:2] if rnd.random() < 0.8 else LOCAL_TAGS)] if rnd.random() < 0.85 else []
+        return [rnd.choice(["struct", "struct", "union"])] + tag + ["{"] + inner + ["}"] + twin_decl(f"n{i}") + [";"], uses
+
     for _ in range(n):
         r = rnd.random()
         if r < 0.12:
@@ -104,7 +138,7 @@ def gen_items(rnd, n, prefix="", multi=True):
             types.append(nm)
         elif r < 0.45 and types:
             nm = tname()
-            tgt = rnd.choice(types + ["uint32", "unsigned int"])
+            tgt = rnd.choice(types + ["uint32", "unsigned int"] + (TWIN_SCALARS if twins else []))
             uses = {tgt} if tgt in types else set()
             suffix = rnd.choice(["", "", "*", "[2]"])
             if suffix == "[2]":
@@ -120,8 +154,14 @@ def gen_items(rnd, n, prefix="", multi=True):
             nm = tname()
             kind = rnd.choice(["struct", "struct", "union"])
             body, uses = [], set()
+            if twins:
+                body += ["uint8", "cnt", ";"]
             for i in range(rnd.randint(1, 5)):
-                if rnd.random() < 0.15:
+                if twins and rnd.random() < 0.5:
+                    ft, fu = twin_member(i, types)
+                    body += ft
+                    uses |= fu
+                elif rnd.random() < 0.15:
                     inner, iu = field_tokens(f"g{i}", types)
                     uses |= iu
                     body += [rnd.choice(["struct", "union"]), "{"] + inner + ["}", f"n{i}", ";"]
@@ -228,7 +268,7 @@ def describe_type(T, dc, depth=0):
     if issubclass(T, BaseArray):
         ne = T.num_entries
         return ("arr", describe_type(T.type, dc, depth + 1), ne if isinstance(ne, int) or ne is None else repr(ne))
-    return ("scalar", name, T.size)
+    return ("scalar", name, T.size, getattr(T, "signed", None))
 
 
 def normalise(sig):
@@ -285,7 +325,33 @@ def toposort_variants(items, rnd, k):
     return outs
 
 
-KINDS = ["layout", "layout", "layout", "order", "order+layout", "split", "one-comment", "one-comment", "layout-rich", "layout-rich", "order+layout-rich"]
+KINDS = ["layout", "layout", "layout", "order", "order+layout", "split", "one-comment", "one-comment", "layout-rich", "layout-rich", "order+layout-rich",
+         "order+split", "order"]
+
+
+def twin_features(items) -> list[str]:
+    """which name-twin shapes a definition set contains (evidence bookkeeping): local tags declared by several top-level definitions,
+    how their members are declared, int48 next to uint48"""
+    out = set()
+    seen = {}
+    scal = set()
+    for k, it in enumerate(items):
+        toks = [t[0] if isinstance(t, tuple) else t for t in it.tokens]
+        for i, t in enumerate(toks):
+            if t in TWIN_SCALARS and i + 1 < len(toks):
+                scal.add(t)
+                if "[" in toks[i + 1]:
+                    out.add("twins:int48-array")
+            if i >= 4 and t in ("struct", "union") and toks[i + 1] in LOCAL_TAGS and toks[i + 2] == "{":
+                seen.setdefault(toks[i + 1], set()).add(k)
+                d = toks[toks.index("}", i) + 1]
+                out.add("twins:tagged-member:" + ("pointer" if d == "*" else "plain" if "[" not in d else "null-terminated" if d.endswith("[]") else
+                                                  "dynamic-array" if "cnt" in d else "fixed-array"))
+    if any(len(v) > 1 for v in seen.values()):
+        out.add("twins:same-local-tag-in-several-definitions")
+    if len(scal) == 2:
+        out.add("twins:int48+uint48")
+    return sorted(out)
 
 
 def describe_norm(dc):
@@ -405,6 +471,8 @@ def run(env) -> Result:
             continue
         base = signature(cs0, names, probe, dc)
         res.feat("items:" + str(len(items)))
+        for ft in twin_features(items):
+            res.feat(ft)
         # comment stripper correspondence (model)
         lines.append(sx([A("stripcomments"), base_text]))
         metas.append(("strip", base_text, dc.parser.TokenParser._remove_comments(base_text)))
@@ -428,9 +496,9 @@ def run(env) -> Result:
                     res.feat("comment:" + ft)
             cs = dc.cstruct()
             try:
-                if kind == "split":
-                    cut = rnd.randint(1, max(1, len(its) - 1))
-                    cd["loads"] = [render(its[:cut]), render(its[cut:])]
+                if kind.endswith("split"):
+                    cuts = sorted({rnd.randint(1, max(1, len(its) - 1)) for _ in range(1 if kind == "split" else rnd.randint(1, 3))})
+                    cd["loads"] = [render(its[a:b]) for a, b in zip([0] + cuts, cuts + [len(its)])]
                     for t in cd["loads"]:
                         cs.load(t)
                 else:
